@@ -13,6 +13,15 @@
 //                StringBufferTestOutput inside one): the unknown-release warning must come exactly once per cache.
 //   * ASan/UBSan as the backstop for every access of the cache and of the harness (patterns are written over
 //                exactly the requested bytes).
+//   * small stack — in the long-list histories (10^4 and more buffers on ONE list: a used list, a free list, the
+//                uncached list) every operation whose work depends on the list length (clearCache, clearAll,
+//                destruction, ~GlobalSimpleStringCache, releases from the interior of the long list) runs on a
+//                thread with a 128 KB stack and a guard region below it. Running out of that stack is the crash the
+//                statement excludes, scaled down: stack use that grows with the list length needs 10^5..10^6
+//                buffers on the default 8 MB stack, 10^4 here. A SIGSEGV/SIGBUS whose address lies in the guard
+//                region is recorded as stack-exhausted:<operation>:<list>; any other fault goes back to ASan.
+//                The deepest frame seen from the underlying allocator's free callback is recorded as evidence
+//                (the unchanged code stays below 16 KB whatever the list length).
 //
 // Scoping decisions (see the final report of this check):
 //   * a live buffer released with a size of ANOTHER class (or across the 256 boundary, or an uncached buffer with
@@ -31,6 +40,8 @@
 #include <set>
 #include <signal.h>
 #include <sys/time.h>
+#include <sys/mman.h>
+#include <pthread.h>
 
 #if defined(__SANITIZE_ADDRESS__)
 #include <sanitizer/asan_interface.h>
@@ -42,6 +53,7 @@
 #endif
 
 #include "CppUTest/TestHarness.h"
+#include "CppUTest/MemoryLeakWarningPlugin.h"
 #include "CppUTest/TestTestingFixture.h"
 #include "CppUTest/SimpleStringInternalCache.h"
 #include "CppUTest/PlatformSpecificFunctions.h"
@@ -73,6 +85,23 @@ enum { OWNER_CACHE = 0, OWNER_FOREIGN = 1 };
 
 struct World;
 static World* W = nullptr;
+
+// ---------------------------------------------------------------- small stack (state; code further down)
+static const size_t SS_STACK = 128 * 1024;     // usable stack of the thread that runs the list-length dependent operations
+static const size_t SS_GUARD = 64 * 1024;      // inaccessible region below it
+struct SmallStack {
+    char* map = nullptr;                 // SS_GUARD + SS_STACK, mapped once per process
+    volatile bool active = false;        // a cache operation is running on the small stack right now
+    uintptr_t guard_lo = 0, guard_hi = 0;
+    uintptr_t entry = 0;                 // frame address of the thread's entry function
+    uintptr_t lowest = 0;                // lowest frame address seen from the underlying allocator's free callback
+    uint64_t frees = 0;                  // free callbacks seen on the small stack in the current run
+    const char* list = "";               // the list the running operation walks (the longest one when it walks all): names the violation key
+    size_t n_list = 0;                   // its length by the model
+    struct sigaction old_segv, old_bus;
+    void note(uintptr_t frame) { frees++; if (frame < lowest) lowest = frame; }
+};
+static SmallStack g_ss;
 
 struct Rec : public TestMemoryAllocator {
     std::map<uintptr_t, UBlock> live;
@@ -113,7 +142,7 @@ struct World {
     std::map<uintptr_t, int> live_iv;      // start -> buf, LIVE buffers with req > 0
     std::map<uintptr_t, int> by_ptr;       // start -> latest buf that is LIVE / LIMBO / RELEASED
     std::map<uintptr_t, size_t> foreign_iv;   // buffers owned by somebody else (start -> length)
-    std::vector<int> used_order[6];        // evidence only: mirror of "most recently handed out first"
+    std::vector<int> used_order[6];        // evidence only: mirror of the used lists, most recently handed out LAST (back = head of the list)
     bool interior_released[6];
     bool nontrivial = false;
     int warnings = 0;                      // warnings observed for the cache object under test
@@ -129,13 +158,23 @@ struct World {
 
     void drop_from_used(int idx) {
         std::vector<int>& u = used_order[bufs[idx].cls];
-        for (size_t i = 0; i < u.size(); i++) if (u[i] == idx) { u.erase(u.begin() + (long) i); return; }
+        for (size_t i = u.size(); i-- > 0;) if (u[i] == idx) { u.erase(u.begin() + (long) i); return; }
     }
     // position of a buffer in the mirrored used list: 0 head, >0 interior, -1 absent
     int used_pos(int idx) {
         std::vector<int>& u = used_order[bufs[idx].cls];
-        for (size_t i = 0; i < u.size(); i++) if (u[i] == idx) return (int) i;
+        for (size_t i = u.size(); i-- > 0;) if (u[i] == idx) return (int) (u.size() - 1 - i);
         return -1;
+    }
+    // lengths of the longest lists the cache holds right now, by the model: used list of a cached class, free list of a
+    // cached class (released and not re-issued), uncached list
+    void list_lengths(size_t& used, size_t& freel, size_t& unc) {
+        used = 0; freel = 0;
+        size_t nfree[6] = { 0, 0, 0, 0, 0, 0 };
+        for (int i = 0; i < 5; i++) if (used_order[i].size() > used) used = used_order[i].size();
+        for (auto& kv : by_ptr) { Buf& b = bufs[(size_t) kv.second]; if (b.st == RELEASED && b.cls < 5) nfree[b.cls]++; }
+        for (int i = 0; i < 5; i++) if (nfree[i] > freel) freel = nfree[i];
+        unc = used_order[5].size();
     }
     void set_gone(int idx) {
         Buf& b = bufs[idx];
@@ -235,7 +274,7 @@ struct World {
         int idx = (int) bufs.size() - 1;
         by_ptr[(uintptr_t) p] = idx;
         if (req > 0) live_iv[(uintptr_t) p] = idx;
-        used_order[cls].insert(used_order[cls].begin(), idx);
+        used_order[cls].push_back(idx);
         if (used_order[cls].size() > max_used) max_used = used_order[cls].size();
         if (interior_released[cls]) nontrivial = true;
         count(reused ? "alloc_reused" : "alloc_fresh");
@@ -285,6 +324,7 @@ char* Rec::alloc_memory(size_t size, const char*, size_t) {
 }
 void Rec::free_memory(char* memory, size_t size, const char*, size_t) {
     n_free++;
+    if (g_ss.active) g_ss.note((uintptr_t) __builtin_frame_address(0));
     auto it = live.find((uintptr_t) memory);
     if (it == live.end()) {
         if (!memory) W->viol(std::string("underlying-free:null:op=") + W->op, "free_memory(NULL) reached the underlying allocator");
@@ -305,31 +345,117 @@ void Rec::free_memory(char* memory, size_t size, const char*, size_t) {
 // CPU_BUDGET_S seconds of *user CPU time* (ITIMER_VIRTUAL: independent of machine load, not a wall-clock verdict) it is
 // recorded as non-terminating, with the operation that was running, and the process exits so that the driver resumes
 // with the next case.
+// A long-list history (tens of thousands of buffers through the shadow model) needs up to a second of CPU, a multiple under
+// valgrind: its budget is LONG_BUDGET_S.
 static const int CPU_BUDGET_S = 5;
+#ifdef VF_MEMCHECK
+static const int LONG_BUDGET_S = 900;
+#else
+static const int LONG_BUDGET_S = 90;
+#endif
+static int g_budget_s = CPU_BUDGET_S;
 static void on_cpu_budget(int) {
     static char buf[1024];
     World* w = W;
     if (w && vf::rt().out) {
         int n = snprintf(buf, sizeof buf, "{\"t\":\"v\",\"case\":%llu,\"section\":\"%s\",\"local\":%llu,\"key\":\"no-termination:cache-spins-in:%s\",\"detail\":\"the case consumed %d s of CPU inside one cache operation (a history needs milliseconds): the cache does not come back, e.g. a cyclic list\",\"desc\":null}\n",
-                         (unsigned long long) w->c->global_idx, w->c->section, (unsigned long long) w->c->idx, w->op, CPU_BUDGET_S);
+                         (unsigned long long) w->c->global_idx, w->c->section, (unsigned long long) w->c->idx, w->op, g_budget_s);
         if (n > 0) { ssize_t r = write(fileno(vf::rt().out), buf, (size_t) n); (void) r; }
     }
     _exit(98);
 }
-static void arm_budget(bool on) {
+static void arm_budget(bool on, int seconds = CPU_BUDGET_S) {
     struct itimerval it; memset(&it, 0, sizeof it);
-    it.it_value.tv_sec = on ? CPU_BUDGET_S : 0;
+    g_budget_s = seconds;
+    it.it_value.tv_sec = on ? seconds : 0;
     setitimer(ITIMER_VIRTUAL, &it, nullptr);
 }
 
+// ---------------------------------------------------------------- small stack (code)
+// The recorded key names the operation that was running (World::op) and the long list of the case. Faults that are not in
+// the guard region are not ours: the previous handlers (ASan's reporter or the default action) are put back and the
+// faulting instruction is executed again.
+static char g_altstack[64 * 1024];
+static void on_stack_fault(int, siginfo_t* si, void*) {
+    uintptr_t a = (uintptr_t) si->si_addr;
+    if (g_ss.active && a >= g_ss.guard_lo && a < g_ss.guard_hi) {
+        static char buf[1024];
+        World* w = W;
+        if (w && vf::rt().out) {
+            int n = snprintf(buf, sizeof buf, "{\"t\":\"v\",\"case\":%llu,\"section\":\"%s\",\"local\":%llu,\"key\":\"stack-exhausted:%s:%s\",\"detail\":\"%s ran out of a %lu KB thread stack with %lu buffers on the %s after %llu blocks had been returned: the operation's stack use grows with the list length, on the default stack it dies the same way with a proportionally longer list\",\"desc\":null}\n",
+                             (unsigned long long) w->c->global_idx, w->c->section, (unsigned long long) w->c->idx, w->op, g_ss.list, w->op, (unsigned long) (SS_STACK / 1024), (unsigned long) g_ss.n_list, g_ss.list, (unsigned long long) g_ss.frees);
+            if (n > 0) { ssize_t r = write(fileno(vf::rt().out), buf, (size_t) (n < (int) sizeof buf ? n : (int) sizeof buf - 1)); (void) r; }
+        }
+        _exit(97);
+    }
+    sigaction(SIGSEGV, &g_ss.old_segv, nullptr);
+    sigaction(SIGBUS, &g_ss.old_bus, nullptr);
+}
+struct SsThunk { std::function<void()>* fn; };
+static void* ss_entry(void* arg) {
+    // the fault handler needs a stack of its own; ASan gives every thread one and unmaps "the current one" at thread exit,
+    // so whatever was installed is put back before returning
+    stack_t mine, old;
+    memset(&mine, 0, sizeof mine); memset(&old, 0, sizeof old);
+    mine.ss_sp = g_altstack; mine.ss_size = sizeof g_altstack; mine.ss_flags = 0;
+    bool swapped = sigaltstack(&mine, &old) == 0;
+    g_ss.entry = (uintptr_t) __builtin_frame_address(0);
+    g_ss.lowest = g_ss.entry;
+    g_ss.frees = 0;
+    g_ss.active = true;
+    (*((SsThunk*) arg)->fn)();
+    g_ss.active = false;
+    if (swapped) {
+        if (old.ss_flags & SS_DISABLE) { stack_t off; memset(&off, 0, sizeof off); off.ss_flags = SS_DISABLE; sigaltstack(&off, nullptr); }
+        else { old.ss_flags = 0; sigaltstack(&old, nullptr); }
+    }
+    return nullptr;
+}
+// Runs fn on the small stack and waits for it. Returns the stack depth (bytes below the thread's entry frame) of the deepest
+// free callback of the underlying allocator, or -1 when no small stack could be set up (fn then ran on the caller's stack).
+static long ss_run(std::function<void()> fn) {
+    if (!g_ss.map) {
+        void* m = mmap(nullptr, SS_GUARD + SS_STACK, PROT_READ | PROT_WRITE, MAP_PRIVATE | MAP_ANONYMOUS, -1, 0);
+        if (m != MAP_FAILED && mprotect(m, SS_GUARD, PROT_NONE) == 0) {
+            g_ss.map = (char*) m;
+            g_ss.guard_lo = (uintptr_t) m; g_ss.guard_hi = g_ss.guard_lo + SS_GUARD;
+        } else if (m != MAP_FAILED) munmap(m, SS_GUARD + SS_STACK);
+    }
+    pthread_attr_t at;
+    bool ok = g_ss.map && pthread_attr_init(&at) == 0;
+    if (ok && pthread_attr_setstack(&at, g_ss.map + SS_GUARD, SS_STACK) != 0) { pthread_attr_destroy(&at); ok = false; }
+    if (!ok) { fn(); return -1; }
+    struct sigaction sa; memset(&sa, 0, sizeof sa);
+    sa.sa_sigaction = on_stack_fault;
+    sa.sa_flags = SA_SIGINFO | SA_ONSTACK;
+    sigemptyset(&sa.sa_mask);
+    sigaction(SIGSEGV, &sa, &g_ss.old_segv);
+    sigaction(SIGBUS, &sa, &g_ss.old_bus);
+    SsThunk th; th.fn = &fn;
+    pthread_t t;
+    long depth = -1;
+    if (pthread_create(&t, &at, ss_entry, &th) == 0) {
+        pthread_join(t, nullptr);
+        depth = (long) (g_ss.entry - g_ss.lowest);
+    } else fn();
+    pthread_attr_destroy(&at);
+    sigaction(SIGSEGV, &g_ss.old_segv, nullptr);
+    sigaction(SIGBUS, &g_ss.old_bus, nullptr);
+    return depth;
+}
+
 // ---------------------------------------------------------------- scripts for the direct sections
-struct Op { char k; int a; int b; int c; };   // kind, operands
+struct Op { char k; int a; int b; int c; };   // kind, operands (R/W: c = 1 -> the release runs on the small stack when the script asks for one)
 // A size | R idx | W idx size | X idx size | F fidx size | I idx off size | S idx | C | K | V | Q size
 struct Script {
     std::vector<Op> ops;
     int ending = 0;          // 0 release all, clearCache, clearAll, destroy | 1 clearAll, destroy | 2 destroy without clearing
     bool adaptor = false;    // drive through SimpleStringCacheAllocator
     bool fixture = false;    // run inside a TestTestingFixture test (warning goes to its output)
+    bool global = false;     // drive the allocator of a GlobalSimpleStringCache (alloc / release only; the ending is its destruction)
+    bool small_stack = false;   // clearCache / clearAll / destruction and the releases marked c = 1 run on the small stack
+    const char* long_list = ""; // long-list histories: which list is the long one
+    std::string summary;     // long-list histories: compact description (text() has tens of thousands of operations)
     std::string text() const {
         std::string s;
         char b[64];
@@ -347,8 +473,10 @@ struct Script {
         return s;
     }
     std::string json() const {
-        return vf::J().k("ops", text()).k("n_ops", (unsigned long) ops.size()).k("ending", ending == 0 ? "release-all,clearCache,clearAll,destroy" : ending == 1 ? "clearAll,destroy" : "destroy-without-clear")
-            .k("via", adaptor ? "SimpleStringCacheAllocator" : "SimpleStringInternalCache").k("output", fixture ? "fixture" : "outside-test-run")
+        return vf::J().k("ops", summary.empty() ? text() : summary).k("n_ops", (unsigned long) ops.size())
+            .k("ending", global ? "destroy the GlobalSimpleStringCache" : ending == 0 ? "release-all,clearCache,clearAll,destroy" : ending == 1 ? "clearAll,destroy" : "destroy-without-clear")
+            .k("via", global ? "GlobalSimpleStringCache::getAllocator" : adaptor ? "SimpleStringCacheAllocator" : "SimpleStringInternalCache").k("output", fixture ? "fixture" : "outside-test-run")
+            .k("list_length_dependent_operations_on", small_stack ? "a thread with a 128 KB stack" : "the main stack")
             .k("legend", "A<size> alloc (buffers are numbered #0.. in order of allocation); R#i release with the true size; W#i:s release with another size of the same class; X#i:s release with a size of another class; F<k>:s release foreign buffer k; I#i+off:s release interior pointer; S#i release again; C clearCache; K clearAllIncludingCurrentlyUsedMemory; V verify patterns; Q<size> hasFreeBlocksOfSize").str();
     }
 };
@@ -455,7 +583,12 @@ static char g_static_foreign[48];
 struct Exec {
     World& w; const Script& s;
     SimpleStringInternalCache* cache = nullptr;
-    SimpleStringCacheAllocator* adaptor = nullptr;
+    TestMemoryAllocator* adaptor = nullptr;             // the allocator interface the script drives (own adaptor or the global cache's)
+    SimpleStringCacheAllocator* own_adaptor = nullptr;
+    GlobalSimpleStringCache* global = nullptr;
+    TestMemoryAllocator* string_alloc_before = nullptr;
+    size_t len_used = 0, len_free = 0, len_unc = 0;     // model's list lengths, measured before a list-length dependent operation
+    bool release_on_small_stack = false;
     std::vector<int> idx_of;            // script buffer number -> index in w.bufs
     char* foreign[N_FOREIGN]; size_t flen[N_FOREIGN];
     char stack_foreign[40];
@@ -463,6 +596,27 @@ struct Exec {
 
     char* do_alloc(size_t n) { return adaptor ? adaptor->alloc_memory(n, "c18", 1) : cache->alloc(n); }
     void do_dealloc(char* p, size_t n) { if (adaptor) adaptor->free_memory(p, n, "c18", 2); else cache->dealloc(p, n); }
+
+    void measure() { if (s.small_stack) w.list_lengths(len_used, len_free, len_unc); }
+    // an operation whose work depends on the list lengths: on the small stack when the script asks for it (measure() first)
+    // `list` names the list the operation walks (for the violation key); NULL: all of them, the longest one is named
+    void heavy(const char* opname, const char* list, std::function<void()> fn) {
+        if (!s.small_stack) { fn(); return; }
+        vf::Ctx& c = *w.c;
+        if (!list) list = len_used >= len_free && len_used >= len_unc ? "used-list" : len_free >= len_unc ? "free-list" : "uncached-list";
+        g_ss.list = list;
+        g_ss.n_list = !strcmp(list, "used-list") ? len_used : !strcmp(list, "free-list") ? len_free : len_unc;
+        long depth = ss_run(fn);
+        std::string pre = std::string("small_stack_") + opname;
+        c.count(pre + "_runs");
+        if (depth < 0) c.count("small_stack_unavailable_ran_on_main_stack");
+        else c.count(depth <= 4096 ? "small_stack_peak_depth_le_4k" : depth <= 16384 ? "small_stack_peak_depth_le_16k" : depth <= 65536 ? "small_stack_peak_depth_le_64k" : "small_stack_peak_depth_gt_64k");
+        c.count("small_stack_underlying_frees", g_ss.frees);
+        if (depth < 0) return;
+        if (len_used >= 10000) c.count(pre + "_with_used_list_of_10000_or_more");
+        if (len_free >= 10000) c.count(pre + "_with_free_list_of_10000_or_more");
+        if (len_unc >= 10000) c.count(pre + "_with_uncached_list_of_10000_or_more");
+    }
 
     void expect_silent(size_t o0, const char* opname) {
         if (out_len() != o0) w.viol(std::string("output-during:") + opname, std::string("the cache printed during ") + opname + ": " + out_from(o0).substr(0, 200));
@@ -473,7 +627,8 @@ struct Exec {
         size_t o0 = out_len();
         int before = w.warnings;
         w.op = "dealloc";
-        do_dealloc(p, size);
+        if (release_on_small_stack) { measure(); heavy("release", !strcmp(shape, "uncached") ? "uncached-list" : "used-list", [&] { do_dealloc(p, size); }); }
+        else do_dealloc(p, size);
         bool warn = out_len() > o0;
         if (warn) {
             w.warnings++;
@@ -507,9 +662,18 @@ struct Exec {
         snprintf(stack_foreign, sizeof stack_foreign, "stack-buffer"); foreign[6] = stack_foreign; flen[6] = sizeof stack_foreign;
         for (int i = 0; i < N_FOREIGN; i++) w.foreign_iv[(uintptr_t) foreign[i]] = flen[i];
 
-        cache = new SimpleStringInternalCache;
-        if (s.adaptor) adaptor = new SimpleStringCacheAllocator(*cache, &w.rec);
-        else cache->setAllocator(&w.rec);
+        if (s.global) {
+            // the cache inside a GlobalSimpleStringCache, driven through the allocator it installs for SimpleString
+            string_alloc_before = SimpleString::getStringAllocator();
+            SimpleString::setStringAllocator(&w.rec);
+            w.op = "install";
+            global = new GlobalSimpleStringCache;
+            adaptor = global->getAllocator();
+        } else {
+            cache = new SimpleStringInternalCache;
+            if (s.adaptor) adaptor = own_adaptor = new SimpleStringCacheAllocator(*cache, &w.rec);
+            else cache->setAllocator(&w.rec);
+        }
 
         for (const Op& o : s.ops) {
             switch (o.k) {
@@ -537,7 +701,9 @@ struct Exec {
                 if (pos > 0) { w.interior_released[b.cls] = true; c.count(std::string("release_interior_class_") + CLS[b.cls]); }
                 else c.count(std::string("release_head_class_") + CLS[b.cls]);
                 c.count(o.k == 'R' ? "op_release_true_size" : "op_release_other_size_same_class");
+                release_on_small_stack = s.small_stack && o.c == 1;
                 release(b.p, size, 0, shape, "");
+                release_on_small_stack = false;
                 break;
             }
             case 'X': {
@@ -576,21 +742,25 @@ struct Exec {
                 break;
             }
             case 'C': {
+                if (!cache) break;
                 size_t o0 = out_len();
                 w.op = "clearCache";
-                cache->clearCache();
+                measure();
+                heavy("clearCache", "free-list", [&] { cache->clearCache(); });
                 expect_silent(o0, "clearCache");
                 w.check_after_clearCache();
                 c.count("op_clearCache");
                 break;
             }
             case 'K': {
+                if (!cache) break;
                 clear_all("clearAll");
                 break;
             }
             case 'V': w.verify_all("at a verification point"); c.count("op_verify_all"); break;
             case 'Q': {
                 size_t o0 = out_len();
+                if (!cache) break;
                 w.op = "hasFreeBlocksOfSize";
                 bool has = (size_t) o.a <= 256 ? cache->hasFreeBlocksOfSize((size_t) o.a) : false;
                 expect_silent(o0, "hasFreeBlocksOfSize");
@@ -604,6 +774,24 @@ struct Exec {
             }
         }
         // ending
+        if (s.global) {
+            w.verify_all("before the destruction of the global cache");
+            measure();
+            w.forget_all();                     // ~GlobalSimpleStringCache clears everything, buffers in use included
+            w.op = "global-destroy";
+            size_t o0 = out_len();
+            heavy("global_destroy", nullptr, [&] { delete global; });
+            global = nullptr; adaptor = nullptr;
+            expect_silent(o0, "global-destroy");
+            if (SimpleString::getStringAllocator() != &w.rec) c.count("global_destructor_did_not_restore_allocator");
+            SimpleString::setStringAllocator(string_alloc_before);
+            w.check_all_returned("global-destroy");
+            c.count("global_cache_lifetimes_driven_through_the_allocator");
+            c.count("underlying_alloc_calls", w.rec.n_alloc);
+            c.count("underlying_free_calls", w.rec.n_free);
+            for (int i = 0; i < 5; i++) free(foreign[i]);
+            return;
+        }
         if (s.ending == 0) {
             std::vector<int> order;
             for (auto& kv : w.by_ptr) if (w.bufs[(size_t) kv.second].st == LIVE) order.push_back(kv.second);
@@ -624,7 +812,8 @@ struct Exec {
             }
             size_t o0 = out_len();
             w.op = "clearCache";
-            cache->clearCache();
+            measure();
+            heavy("clearCache", "free-list", [&] { cache->clearCache(); });
             expect_silent(o0, "clearCache");
             w.check_after_clearCache();
             c.count("op_clearCache");
@@ -636,8 +825,9 @@ struct Exec {
         }
         w.op = "destroy";
         size_t o0 = out_len();
-        if (adaptor) { delete adaptor; adaptor = nullptr; }
-        delete cache; cache = nullptr;
+        measure();
+        heavy("destroy", nullptr, [&] { if (own_adaptor) delete own_adaptor; delete cache; });
+        own_adaptor = nullptr; adaptor = nullptr; cache = nullptr;
         expect_silent(o0, "destroy");
         if (s.ending != 2) w.check_all_returned("destroy-after-clearAll");
         else {
@@ -657,10 +847,11 @@ struct Exec {
     void clear_all(const char* what) {
         vf::Ctx& c = *w.c;
         w.verify_all("before clearAll");
+        measure();
         w.forget_all();                         // every buffer belongs to the cache from here on
         size_t o0 = out_len();
         w.op = "clearAll";
-        cache->clearAllIncludingCurrentlyUsedMemory();
+        heavy("clearAll", nullptr, [&] { cache->clearAllIncludingCurrentlyUsedMemory(); });
         expect_silent(o0, "clearAll");
         w.check_all_returned(what);
         for (int i = 0; i < 6; i++) w.interior_released[i] = false;
@@ -674,7 +865,7 @@ static void fixture_body() { g_exec->run(); }
 static void run_script(vf::Ctx& c, const Script& s, const std::string& sig_prefix) {
     c.begin([&s] { return s.json(); });
     World w(&c); W = &w;
-    arm_budget(true);
+    arm_budget(true, s.small_stack ? LONG_BUDGET_S : CPU_BUDGET_S);
     void (*saved_fputs)(const char*, PlatformSpecificFile) = PlatformSpecificFPuts;
     PlatformSpecificFPuts = capture_fputs;
     g_cap.clear(); g_fx = nullptr;
@@ -696,8 +887,8 @@ static void run_script(vf::Ctx& c, const Script& s, const std::string& sig_prefi
         g_exec = nullptr;
     }
     PlatformSpecificFPuts = saved_fputs;
-    if (w.nontrivial) c.nontrivial(sig_prefix + s.text() + (s.adaptor ? "|ad" : "|dc") + std::to_string(s.ending));
-    c.count(s.adaptor ? "histories_via_adaptor" : "histories_via_cache");
+    if (w.nontrivial) c.nontrivial(sig_prefix + (s.summary.empty() ? s.text() : s.summary + "#" + std::to_string(vf::fnv(s.text()))) + (s.global ? "|gl" : s.adaptor ? "|ad" : "|dc") + std::to_string(s.ending));
+    c.count(s.global ? "histories_via_global_cache_allocator" : s.adaptor ? "histories_via_adaptor" : "histories_via_cache");
     if (w.warnings) c.count("histories_with_a_warning");
     w.rec.cleanup();
     arm_budget(false);
@@ -752,6 +943,85 @@ static void sec_pairs(vf::Ctx& c) {
     s.ops.push_back({ 'V', 0, 0, 0 });
     run_script(c, s, "pair:");
     c.count("same_class_size_pairs");
+}
+
+// ---------------------------------------------------------------- long lists: 10^4 and more buffers on one list when it is cleared
+// The statement quantifies over ALL histories; the random histories keep at most 150 buffers alive. Here one list of the
+// cache (the used list of a class, the free list of a class, the uncached list, or all three) is grown to 10000..20000
+// (thorough: ..50000) entries before clearCache / clearAll / destruction / ~GlobalSimpleStringCache, with a few releases from
+// the interior of the long list, and every operation whose work depends on the list length runs on the small stack.
+// idx decides list kind (4) x interface (3) x clearing operation in the middle of the history (3: none, clearCache, clearAll;
+// always none for the global cache); sizes, lengths, noise, interior releases and the ending come from the rng.
+static const char* LONG_KIND[4] = { "used-list", "free-list", "uncached-list", "used+free+uncached-lists" };
+static Script gen_long(vf::Rng& r, uint64_t idx, bool thorough) {
+    Script s;
+    // every 36 consecutive cases enumerate the 36 combinations; the rotation by 7 per round keeps a strided sample of the index
+    // space (memcheck variant: every 40th / 100th case) from always landing on the same list kind
+    uint64_t combo = (idx + (idx / 36) * 7) % 36;
+    int kind = (int) (combo % 4);
+    int via = (int) ((combo / 4) % 3);
+    s.adaptor = via == 1; s.global = via == 2; s.fixture = false; s.small_stack = true;
+    s.long_list = LONG_KIND[kind];
+    int N = r.range(10100, 20000);
+    if (thorough && r.chance(20)) N = r.range(20000, 50000);
+    int cls = kind == 2 ? 5 : (int) r.below(5);
+    int nb = 0;
+    auto size_for = [&](int c) { return c == 5 ? r.range(257, 400) : size_in_class(r, c); };
+    auto A = [&](int sz) { s.ops.push_back({ 'A', sz, 0, 0 }); return nb++; };
+    std::vector<int> none;
+    int noise = r.range(0, 6);
+    for (int i = 0; i < noise; i++) A(pick_size(r, none));
+    std::vector<int> ids; ids.reserve((size_t) N);
+    std::vector<char> gone((size_t) N + 8192, 0);
+    for (int i = 0; i < N; i++) ids.push_back(A(size_for(cls)));
+    // releases from the interior of the long list (old, middle-aged and recent buffers), on the small stack; some are re-issued
+    int interior = r.range(0, 5);
+    for (int i = 0; i < interior; i++) {
+        int k = r.chance(30) ? r.range(0, 20) : r.chance(50) ? r.range(0, N - 2) : N - 2 - r.range(0, 20);
+        if (k < 0 || k >= N - 1 || gone[(size_t) k]) continue;
+        gone[(size_t) k] = 1;
+        s.ops.push_back({ 'R', ids[(size_t) k], 0, 1 });
+        if (r.chance(50)) A(size_for(cls));
+    }
+    int M2 = 0, M3 = 0, cls2 = cls;
+    if (kind == 1) {
+        // everything is released, newest first (each release is a head hit: linear), so the FREE list is the long one
+        for (int i = N; i-- > 0;) if (!gone[(size_t) i]) s.ops.push_back({ 'R', ids[(size_t) i], 0, 0 });
+        if (!s.global) s.ops.push_back({ 'Q', size_for(cls), 0, 0 });
+    }
+    if (kind == 3) {
+        // a long used list in cls, plus a free list in another class and an uncached list of a few thousand each
+        cls2 = (cls + 1 + (int) r.below(4)) % 5;
+        M2 = r.range(1000, 4000); M3 = r.range(1000, 3000);
+        std::vector<int> f; for (int i = 0; i < M2; i++) f.push_back(A(size_for(cls2)));
+        for (int i = M2; i-- > 0;) s.ops.push_back({ 'R', f[(size_t) i], 0, 0 });
+        for (int i = 0; i < M3; i++) A(size_for(5));
+    }
+    s.ops.push_back({ 'V', 0, 0, 0 });
+    // the clearing operation in the middle of the history (direct and adaptor interface), then a little more traffic
+    int mid = s.global ? 0 : (int) ((combo / 12) % 3);      // 0 none, 1 clearCache, 2 clearAll
+    if (mid) {
+        s.ops.push_back({ mid == 1 ? 'C' : 'K', 0, 0, 0 });
+        int more = r.range(1, 8);
+        for (int i = 0; i < more; i++) A(r.chance(70) ? size_for(cls) : pick_size(r, none));
+        if (mid == 1 && kind != 1) { s.ops.push_back({ 'R', nb - 1, 0, 0 }); }
+        s.ops.push_back({ 'V', 0, 0, 0 });
+    }
+    // ending 0 would release every live buffer in a scattered order (quadratic in a long used list): only when the used lists are short
+    s.ending = (kind == 1 || mid == 2) && r.chance(50) ? 0 : 1;
+    char b[256];
+    snprintf(b, sizeof b, "long %s: %d noise allocations, %d allocations of class %s, %d releases from its interior (on the small stack)%s, then %s%s",
+             LONG_KIND[kind], noise, N, CLS[cls], interior, kind == 1 ? ", all released newest first" : "",
+             mid == 0 ? "the ending" : mid == 1 ? "clearCache, a few more allocations, the ending" : "clearAll, a few more allocations, the ending", "");
+    s.summary = b;
+    if (kind == 3) { snprintf(b, sizeof b, "; also %d buffers of class %s allocated and released, %d uncached buffers in use", M2, CLS[cls2], M3); s.summary += b; }
+    return s;
+}
+static void sec_long(vf::Ctx& c) {
+    Script s = gen_long(c.rng, c.idx, c.thorough);
+    run_script(c, s, "long:");
+    c.count("long_list_histories");
+    c.count(std::string("long_list_histories_") + s.long_list);
 }
 
 // ---------------------------------------------------------------- GlobalSimpleStringCache under SimpleString traffic
@@ -934,12 +1204,16 @@ static void init() {
 }
 
 int main(int argc, char** argv) {
+    // The harness' own containers (tens of thousands of map nodes in the long-list histories) must not pass through cpputest's
+    // leak-detecting operator new (73-bucket table: every delete walks a bucket); the string cache does not depend on it.
+    MemoryLeakWarningPlugin::turnOffNewDeleteOverloads();
     init_pairs();
     std::vector<vf::Section> S = {
         { "size_sweep", SWEEP_N, SWEEP_N, sec_sweep, true },
         { "same_class_size_pairs", pair_total, pair_total, sec_pairs, true },
         { "histories", 30000, 400000, sec_histories, false },
         { "global_cache_traffic", 8000, 100000, sec_global, false },
+        { "long_lists", 96, 720, sec_long, false },
     };
     return vf::harness_main(argc, argv, S, init);
 }
